@@ -156,7 +156,7 @@ def main(argv):
             obligations.append(o)
         # vacuity: every body function's canary must fail
         c = d.get('canary')
-        if c is not None and c.assembled is not None and r.status not in ('frontend', 'internal'):
+        if c is not None and c.assembled is not None and r.status not in ('frontend', 'internal') and c.status not in ('frontend', 'internal', 'lost-anchor'):
             canary_failed_fns = set()
             for dg in c.raw_diags:
                 if dg.get('level') != 'error':
@@ -168,7 +168,7 @@ def main(argv):
                         if fi is not None and o.get('kind') == 'canary':
                             canary_failed_fns.add(fi.item)
             for f in c.assembled.fns:
-                if f.mode != 'body':
+                if f.mode != 'body' or f.auto_added:
                     continue
                 vac['canary_functions'] += 1
                 if f.item in canary_failed_fns:
@@ -241,7 +241,8 @@ def main(argv):
             json.dump(rec, f, indent=1)
         replay_paths.append(path)
         tail = '' if found else ' no-failing-input-found'
-        vio_lines.append('VIOLATION property=%s replay=%s obligation=%s%s' % (pid, path, fl.obligation, tail))
+        nm = re.search(r' \[([A-Za-z0-9_.\-]+)\]$', fl.message or '')
+        vio_lines.append('VIOLATION property=%s replay=%s obligation=%s%s%s' % (pid, path, fl.obligation, ('[%s]' % nm.group(1)) if nm else '', tail))
 
     n_dis = sum(1 for o in obligations if o['status'] == 'discharged')
     n_known = sum(1 for o in obligations if o['status'] == 'failed' and o['id'] in known_by_ob)
